@@ -165,11 +165,13 @@ impl<'tcx> Ex<'tcx> {
                         }
                         _ => {}
                     }
+                    let of = self.adt_path_of(base_ty.ty);
                     obj(&[
                         ("k", esc("field")),
                         ("i", idx.as_usize().to_string()),
                         ("name", opt(name.map(|n| esc(&n)))),
                         ("ty", esc(&fty.to_string())),
+                        ("of", opt(of.map(|n| esc(&n)))),
                     ])
                 }
                 ProjectionElem::Index(l) => {
